@@ -37,7 +37,10 @@ RULE = (
     "first configuration (thorough: every configuration of maps <= 2 rules and of all canonicalisation-group maps), otherwise the plain one plus one "
     "further binding per configuration in turn; each redirect is followed as a server would (percent-decode once, "
     "query string forwarded) until it stops. evaluation = one (map, config, order, binding, path, method, query "
-    "form) matched and, if it redirected, checked and followed (n_chains); non-trivial = distinct ones that redirected."
+    "form) matched and, if it redirected, checked and followed (n_chains); non-trivial = distinct ones that redirected. "
+    "Construction histories: for maps of >= 2 rules, every insertion order x every split point (Map(rules[:k]), one "
+    "match, Map.add() of the others with a match in between) must give the first-binding outcomes of the map built "
+    "in one go (quick: strict_slashes and merge_slashes on, redirect_defaults on; thorough: every slash configuration)."
 )
 ASSUMPTIONS = [
     "redirect_to targets are outside the claim (not generated)",
@@ -461,12 +464,15 @@ def check_map(combo, R, tier):
 
                 cfg = (names, tuple(order), strict, merge, rd)
                 full = first_combo or (tier == "thorough" and (k <= 2 or (is_group and k <= 3)))
+                do_hist = k >= 2 and ((strict and merge and (k == 2 or is_group)) if tier == "quick" else True) and rd
                 first_combo = False
                 ad0 = adapter(0, 0)
                 redirecting = []
+                sweep = []
                 for p in paths:
                     for method in methods:
                         first = step(ad0, p, method, None)
+                        sweep.append((p, method, first))
                         R.count("matches")
                         R.ev()
                         R.use("first:" + (first[0] if first[0] != "http" else first[1]))
@@ -477,6 +483,28 @@ def check_map(combo, R, tier):
                                         {"kind": "chain", "rules": base, "order": list(order), "strict": strict,
                                          "merge": merge, "rd": rd, "binding": BINDINGS[0], "path": p,
                                          "method": method, "query": None, "problems": ["exception"], "fd": False})
+                if do_hist:
+                    # construction histories: Map(rules[:split]), one match, Map.add() of the others one by one
+                    # (a match after each) - must behave like the map built in one go
+                    b0 = BINDINGS[0]
+                    for split in range(k):
+                        mh = build_map(base, order[:split], strict, merge, rd)
+                        step(mh.bind(b0[1], script_name=b0[2], url_scheme=b0[0]), "/zz", "GET", None)
+                        for i in order[split:]:
+                            mh.add(rr.to_werkzeug(base[i], WR))
+                            step(mh.bind(b0[1], script_name=b0[2], url_scheme=b0[0]), "/zz", "GET", None)
+                        adh = mh.bind(b0[1], script_name=b0[2], url_scheme=b0[0])
+                        R.use("history")
+                        for p, method, want in sweep:
+                            got = step(adh, p, method, None)
+                            R.count("matches")
+                            R.ev()
+                            if got != want:
+                                R.violation("history:differs-from-one-shot",
+                                            {"kind": "history", "rules": base, "order": list(order), "split": split,
+                                             "strict": strict, "merge": merge, "rd": rd, "path": p, "method": method,
+                                             "one_shot": want, "outcome": got})
+                                break
                 if not redirecting:
                     continue
                 # which (binding, query form) combinations: all of them for the first configuration of the map
@@ -561,7 +589,7 @@ def run_unit(unit, R, tier):
 
 def finalize(R, tier):
     need = ({"hop:slash", "hop:merge", "hop:canonical", "chain-len:1", "chain-len:2", "hostile-redirected",
-             "first:match", "first:redir", "first:NotFound", "first:MethodNotAllowed", "q-via-match", "q-via-bind"}
+             "first:match", "first:redir", "first:NotFound", "first:MethodNotAllowed", "q-via-match", "q-via-bind", "history"}
             | {"q:" + n for n in ("none", "str", "dict", "MultiDict")}
             | {"binding:%d" % i for i in range(len(BINDINGS))}
             | {"rule:%d" % i for i in range(N)})
@@ -589,6 +617,20 @@ def _enc_q(q):
 
 
 def replay(rec):
+    if rec.get("kind") == "history":
+        specs = [rr.norm_spec(d) for d in rec["rules"]]
+        order = [int(i) for i in rec["order"]]
+        b0 = BINDINGS[0]
+        a = step(build_map(specs, order, rec["strict"], rec["merge"], rec["rd"]).bind(b0[1], script_name=b0[2]),
+                 rec["path"], rec["method"], None)
+        mh = build_map(specs, order[: int(rec["split"])], rec["strict"], rec["merge"], rec["rd"])
+        step(mh.bind(b0[1], script_name=b0[2]), "/zz", "GET", None)
+        for i in order[int(rec["split"]):]:
+            mh.add(rr.to_werkzeug(specs[i], WR))
+            step(mh.bind(b0[1], script_name=b0[2]), "/zz", "GET", None)
+        b = step(mh.bind(b0[1], script_name=b0[2]), rec["path"], rec["method"], None)
+        return a != b, (f"rules {[rr.full_rule_string(specs[i]) for i in order]}: built in one go -> {a}; "
+                        f"Map(first {rec['split']}) + one match + Map.add() of the rest -> {b}")
     if rec.get("kind") != "chain":
         return True, rec.get("traceback", "unit exception")
     specs = [rr.norm_spec(d) for d in rec["rules"]]
